@@ -241,7 +241,7 @@ func (e *engine) decoders() []decoder {
 
 func (e *engine) mutate(seed []byte, k int) []byte {
 	b := append([]byte(nil), seed...)
-	switch k % 9 {
+	switch k % 10 {
 	case 0:
 		return b
 	case 1: // bit flip
@@ -273,6 +273,13 @@ func (e *engine) mutate(seed []byte, k int) []byte {
 		if len(b) > 2 {
 			i := e.rng.Intn(len(b) - 1)
 			b = append(b, b[i:]...)
+		}
+	case 9: // tiny length prefix (1..3) in front of a longer body (reads past the announced length)
+		if len(b) > 4 {
+			b[0] = byte(1 + e.rng.Intn(3))
+			if e.rng.Intn(2) == 0 {
+				b[1], b[2], b[3] = 0, 0, 0
+			}
 		}
 	case 8: // group / unknown wire types sprinkled in
 		b = append([]byte{0x0b, 0x08, 0x01, 0x0c, byte(e.rng.Intn(256))}, b...)
